@@ -15,8 +15,8 @@ def init : State := none
 
 def parseProg (s : String) : List Kind :=
   s.toList.filterMap fun c =>
-    if c == 'R' || c == 'r' || c == 'N' then some Kind.read
-    else if c == 'W' || c == 'w' || c == 'H' then some Kind.write
+    if c == 'R' || c == 'r' || c == 'N' || c == 'O' || c == 'L' then some Kind.read
+    else if c == 'W' || c == 'w' || c == 'H' || c == 'M' || c == 'P' then some Kind.write
     else none
 
 def pcStr : Pc → String
